@@ -261,7 +261,9 @@ class ExplicitSched(BaseSched):
             self.start_tail(k)
 
 
-DEFAULT_STATUSES = [0, 256, 256, 9, 15, 11]
+# exit codes (status = code << 8), plain signals, signals with the core-dump bit (139 = SIGSEGV | 0x80, 134 = SIGABRT | 0x80),
+# real-time signals (34, 64) and the largest exit code
+DEFAULT_STATUSES = [0, 256, 256, 9, 15, 11, 139, 134, 34, 64, 65280, 512]
 
 
 class RandomSched(BaseSched):
